@@ -65,7 +65,17 @@ RULE = ("cases = corpus (defect witnesses + corner cases) + for every timestamp 
         "WindowedStream) whose aggregates are compared with the fold; + max(54,N/8) cases of every component with all timestamps "
         "moved up by 1_700_000_000_123, 2^40-3, 2^40+5, 2^32-2, 250*2^32+17 or 2^53 (tumbling durations 1,10,100,250 there); "
         "+ N/8 cases `AG`: First, Last, CountDistinct, CountBy, Percentile 0/25/50/75/100 and StdDev-definedness of one window "
-        "(0..40 events, few distinct values as Number / Integer / String twins, missing fields; agg2Ok).")
+        "(0..40 events, few distinct values as Number / Integer / String twins, missing fields; agg2Ok). "
+        "Round 3: + max(96,N/16) cases `micro`: any of the above generators (all components, all window types) with its duration d ms "
+        "replaced by Duration::from_micros(1000 d + 0/1/400/500/900/999) — durations that are not whole milliseconds; the model "
+        "truncates like as_millis(), so grouping grid and window span must agree; + max(60,N/20) cases `huge`: effectively unbounded "
+        "windows (u64::MAX, u64::MAX-1, 2^63, 2^63+1, u64::MAX-1.7e12, u64::MAX/1000 ms) for a sliding / tumbling / session "
+        "StreamAlphaNode and TimeWindow::record/add_event on [0,d), small and epoch-sized clocks: every event not in the future is "
+        "retained up to the cap; + `XV`: every value sequence of length <=3 over {1,-2,+inf,-inf,NaN,missing} and max(72,N/10) random "
+        "windows (1..12 events filled by record or add_event) whose Number fields range over all of f64 (infinities, NaN, +-f64::MAX next "
+        "to integers / non-numeric / missing): min and max through TimeWindow, Aggregator and operators::{Min,Max} against xMinOk/xMaxOk "
+        "(None iff no numeric value; NaN iff all NaN; else a non-NaN member bounding all non-NaN members) and the fold model xMin/xMax; "
+        "the sum where it does not depend on the order of addition (no NaN, no +-f64::MAX).")
 TRUSTED = [
     "Lean 4.33 kernel; axioms of every property theorem within {propext, Classical.choice, Quot.sound} (audited each run)",
     "hand-written model RreModel/C12/Model.lean tied to src/streaming/window.rs, operators.rs, aggregator.rs, event.rs and "
@@ -83,6 +93,12 @@ ASSUMPTIONS = [
     "timestamps/durations are u64 milliseconds modelled as Nat (saturating_sub = Nat subtraction); no u64 overflow",
     "numeric fields are integer valued with |sum| < 2^53, so the f64 sum/min/max are exact and fold order is irrelevant; "
     "average = IEEE quotient of two exactly representable integers, compared as bit patterns; theorems hold for every division function",
+    "XV cases only: Number fields over all of f64 as the ordered type XNum (-inf < -f64::MAX < integers < f64::MAX < +inf, NaN unordered; "
+    "f64::min/max return the other operand when one is NaN); any NaN prints as `z`; operators::Min/Max are not observed when a NaN is "
+    "present (they compare with partial_cmp().unwrap()), the sum is not observed when a NaN or +-f64::MAX is present (order dependent); "
+    "no theorem covers XNum (model and the declarative oracle xMinOk/xMaxOk are tied by the correspondence check only)",
+    "durations cross the wire as `<ms>` or `u<micros>`; the driver truncates micros/1000 exactly as Duration::as_millis() does; "
+    "TimeWindow::new with start + duration > u64::MAX (an overflowing add in the code) is not generated: unbounded windows start at 0",
     "event identity = caller-assigned id (StreamEvent.id), unique per case",
     "WindowedStream windows come out of a HashMap in arbitrary order: compared as the list sorted by start (starts are proved distinct); "
     "counts() compared as a sorted multiset",
